@@ -312,13 +312,18 @@ def check(run):
     run.cov["crash_points_not_reached"] += json.loads(p.stdout.strip().splitlines()[-1])["not_crashed"]
     t_r2 = os.path.join(wd, "rt_root_trace.ndjson")
     vlib.run_bin("h_store", ["rt", t_r2, sb], env=dict(env, H_STORE_KEY="root"), timeout=900)
+    # (i) a write fault in the middle of storing a large object (file-size limit of the writing process, EFBIG)
+    t_e = os.path.join(wd, "efbig_trace.ndjson")
+    vlib.run_bin("h_store", ["efbig", t_e, sb], env=env, timeout=600)
+    t_e2 = os.path.join(wd, "efbig_root_trace.ndjson")
+    vlib.run_bin("h_store", ["efbig", t_e2, sb], env=dict(env, H_STORE_KEY="root"), timeout=600)
     shutil.rmtree(sb, ignore_errors=True)
 
     # ---------------------------------------------------------------- judge
     # sequential parts in one file (strict = relaxed without overlap: both must accept)
     t_all = os.path.join(wd, "seq_trace.ndjson")
     with open(t_all, "w") as out:
-        for t in (t_c, t_r, t_c2, t_r2):
+        for t in (t_c, t_r, t_c2, t_r2, t_e, t_e2):
             out.write(open(t).read())
     t_race = os.path.join(wd, "race_all_trace.ndjson")
     with open(t_race, "w") as out:
